@@ -45,6 +45,11 @@ class _Continue(Exception):
 class Stub:
     """Base class for caller-supplied objects the interpreted code may touch through attributes, subscripts and calls."""
 
+    def __iter__(self):
+        # Without this, Python's fallback iterates any object that has __getitem__ by calling it with 0, 1, 2, ... until IndexError;
+        # a recording stand-in answers every position, so list(x) / dict.update(x) / sorted(x) inside a builtin would never return.
+        raise Unsupported(f"iteration over the stand-in {type(self).__name__}")
+
 
 class StubCall(Stub):
     """A plain function handed out by a stub (e.g. a staticmethod of the numpy stand-in)."""
